@@ -6,6 +6,8 @@ package main
 // specification's action applied to the previous recorded state.
 
 import (
+	"fmt"
+	"os"
 	"sort"
 
 	"github.com/trajectoryjp/spatial_id_go/v4/common/object"
@@ -82,7 +84,117 @@ func (m *machine) step() {
 		return
 	}
 	r := m.r
-	switch r.Intn(9) {
+	sel := r.Intn(13)
+	if os.Getenv("VH_DEBUG") != "" {
+		fmt.Fprintln(os.Stderr, "machine op", sel, m.ws)
+	}
+	switch sel {
+	case 9: // every voxel expanded to single-zoom spatial IDs, written back in extended form
+		if m.w.H0 != m.w.V0 {
+			return // the expansion depends on the real zoom difference: windows with equal base zooms only
+		}
+		var cost int64
+		for _, s := range m.models() {
+			d := s.V - s.H
+			if d < 0 {
+				d = -d
+			} else {
+				d *= 2
+			}
+			if d > 12 {
+				cost = 1 << 20
+			}
+			cost += 1 << uint(minI(d, 20))
+		}
+		if cost > 600 {
+			m.reset()
+			return
+		}
+		var out []string
+		o, _ := guard(func() (any, error) {
+			for _, s := range m.ws {
+				obj, err := object.NewExtendedSpatialID(s)
+				if err != nil {
+					return nil, err
+				}
+				ext, err := shape.ConvertSpatialIdsToExtendedSpatialIds(transform.ConvertExtendedSpatialIDToSpatialIDs(obj))
+				if err != nil {
+					return nil, err
+				}
+				out = append(out, ext...)
+			}
+			return nil, nil
+		})
+		if o == "ok" {
+			m.ws = uniqSorted(out)
+		} else {
+			m.dead = true
+		}
+		m.emit("M.Expand", map[string]any{}, o, nil)
+	case 10: // every voxel replaced by its ancestor dh / dv levels up (as far as its zoom allows)
+		dh, dv := r.In(0, 2), r.In(0, 2)
+		var out []string
+		o, _ := guard(func() (any, error) {
+			for i, s := range m.ws {
+				obj, err := object.NewExtendedSpatialID(s)
+				if err != nil {
+					return nil, err
+				}
+				mm := m.models()[i]
+				out = append(out, obj.Higher(minI(dh, mm.H), minI(dv, mm.V)).ID())
+			}
+			return nil, nil
+		})
+		if o == "ok" {
+			m.ws = uniqSorted(out)
+		} else {
+			m.dead = true
+		}
+		m.emit("M.Higher", map[string]any{"dh": dh, "dv": dv}, o, nil)
+	case 11: // the 6 / 8 / 26 neighbours of one member join the set
+		ms := m.models()
+		i := r.Intn(len(ms))
+		k := r.Pick(6, 8, 26)
+		var nb []string
+		o, _ := guard(func() (any, error) {
+			switch k {
+			case 6:
+				nb = operated.Get6spatialIdsAdjacentToFaces(m.ws[i])
+			case 8:
+				nb = operated.Get8spatialIdsAroundHorizontal(m.ws[i])
+			default:
+				nb = operated.Get26spatialIdsAroundVoxel(m.ws[i])
+			}
+			return nil, nil
+		})
+		c := ms[i]
+		if o == "ok" {
+			m.ws = uniqSorted(append(append([]string(nil), m.ws...), nb...))
+		} else {
+			m.dead = true
+		}
+		m.emit("M.Around", map[string]any{"c": c.Arr(), "k": k}, o, nil)
+	case 12: // spatial-ID notation round trip (sets with h = v only)
+		for _, s := range m.models() {
+			if s.H != s.V || m.w.H0 != m.w.V0 {
+				return
+			}
+		}
+		var back []string
+		o, _ := guard(func() (any, error) {
+			sp, err := shape.ConvertExtendedSpatialIdsToSpatialIds(m.ws)
+			if err != nil {
+				return nil, err
+			}
+			back, err = shape.ConvertSpatialIdsToExtendedSpatialIds(sp)
+			return nil, err
+		})
+		if o == "ok" {
+			m.ws = uniqSorted(back)
+		} else {
+			m.dead = true
+		}
+		m.emit("M.SpRoundTrip", map[string]any{}, o, nil)
 	case 0, 1: // change zoom
 		h, v := r.In(0, m.hD), r.In(0, m.vD)
 		if zoomCost(m.models(), h, v) > 600 {
